@@ -254,10 +254,14 @@ func (c *Ctx) runProducer(a *asyncInfo, ro *Roles, root *ssa.Function, policy co
 		// a copy of the submitted bytes is the submitted item
 		for i := 0; i < 4; i++ {
 			call, ok := rv.(*ssa.Call)
-			if !ok || !defaultCopyMaker(call) {
+			if !ok {
 				break
 			}
-			rv, rfr = rootVal(call.Call.Args[0], rfr)
+			src, isCopy := copySource(call)
+			if !isCopy {
+				break
+			}
+			rv, rfr = rootVal(src, rfr)
 		}
 		if rv == submitted {
 			return true
@@ -272,10 +276,14 @@ func (c *Ctx) runProducer(a *asyncInfo, ro *Roles, root *ssa.Function, policy co
 								fv, ffr := rootVal(st.Val, rfr)
 								for i := 0; i < 4; i++ {
 									call, ok := fv.(*ssa.Call)
-									if !ok || !defaultCopyMaker(call) {
+									if !ok {
 										break
 									}
-									fv, ffr = rootVal(call.Call.Args[0], ffr)
+									src, isCopy := copySource(call)
+									if !isCopy {
+										break
+									}
+									fv, ffr = rootVal(src, ffr)
 								}
 								if fv == submitted {
 									return true
@@ -2517,4 +2525,25 @@ func itemStruct(v ssa.Value) *types.Struct {
 		}
 	}
 	return nil
+}
+
+// copySource: call makes a fresh copy of one of its arguments (bytes.Clone(x), slices.Clone(x),
+// append([]byte(nil), x...), append(make([]T, 0, n), x...)) → that argument.
+func copySource(call *ssa.Call) (ssa.Value, bool) {
+	if defaultCopyMaker(call) && len(call.Call.Args) >= 1 {
+		return call.Call.Args[0], true
+	}
+	if b, ok := call.Call.Value.(*ssa.Builtin); ok && b.Name() == "append" && len(call.Call.Args) == 2 {
+		switch d := call.Call.Args[0].(type) {
+		case *ssa.Const:
+			if d.Value == nil {
+				return call.Call.Args[1], true
+			}
+		case *ssa.MakeSlice:
+			if n, ok := constInt(d.Len); ok && n == 0 {
+				return call.Call.Args[1], true
+			}
+		}
+	}
+	return nil, false
 }
